@@ -370,6 +370,9 @@ class BuiltinMixin:
         if full == "math.fabs":
             v = coerce(self.need_value(args[0], st, node), REAL)
             return V(REAL, z3.If(v.z < 0, -v.z, v.z))
+        if full == "collections.deque" and not args and not kwargs:
+            # deque(): modelled like a list (append/popleft/indexing/iteration); the element type comes from the first use
+            return self.new_list(st, TOpaque("empty"), [])
         if full == "copy.copy" or full == "copy.deepcopy":
             return self.copy_value(args[0], st, node, deep=name == "deepcopy")
         if mod.startswith("asyncio") or mod.startswith("logging") or mod in ("pyee", "pyee.asyncio"):
@@ -625,6 +628,12 @@ class BuiltinMixin:
                 default = self.retype_empty_set(st, default, t.val)
             return ite(has, val, default)
         if attr == "pop":
+            if isinstance(args[0].t, TOpt) and not isinstance(t.key, TOpt):
+                # d.pop(None): None is never a key of a dict[K, V]
+                if len(args) > 1:
+                    raise Unsupported("dict.pop(optional key, default)")
+                self.may_raise(st, opt_is_none(args[0]), "KeyError", node, "pop(None)")
+                args = [opt_get(args[0])] + list(args[1:])
             k = coerce(args[0], t.key)
             has = self.dict_has(st, recv, k)
             val = self.bind(st, self.dict_get(st, recv, k), "popped")
